@@ -59,6 +59,23 @@ static CASE_LEN: AtomicUsize = AtomicUsize::new(0);
 static mut CASE_BUF: [u8; 8192] = [0; 8192];
 static JOURNAL: AtomicBool = AtomicBool::new(false);
 
+#[repr(C)]
+struct Timespec {
+    tv_sec: i64,
+    tv_nsec: i64,
+}
+extern "C" {
+    fn clock_gettime(clk: i32, ts: *mut Timespec) -> i32;
+}
+/// CPU time consumed by this process so far, in seconds (CLOCK_PROCESS_CPUTIME_ID = 2 on Linux)
+fn process_cpu_secs() -> f64 {
+    let mut ts = Timespec { tv_sec: 0, tv_nsec: 0 };
+    unsafe {
+        clock_gettime(2, &mut ts);
+    }
+    ts.tv_sec as f64 + ts.tv_nsec as f64 * 1e-9
+}
+
 extern "C" {
     fn signal(signum: i32, handler: usize) -> usize;
     fn write(fd: i32, buf: *const u8, n: usize) -> isize;
@@ -104,21 +121,27 @@ fn install_crash_channel() {
     }
     JOURNAL.store(std::env::var("CBX_JOURNAL").is_ok(), Ordering::Relaxed);
     let limit: u64 = std::env::var("CBX_WATCHDOG_SECS").ok().and_then(|s| s.parse().ok()).unwrap_or(20);
+    // A call that does not return is recognised by the CPU time it burns without finishing (`limit`
+    // CPU-seconds, default 20), so that a merely starved worker on an overloaded machine is not mistaken
+    // for a hang; a call that blocks without burning CPU is caught by a generous wall-clock limit.
+    let wall_limit: u64 = std::env::var("CBX_WATCHDOG_WALL_SECS").ok().and_then(|s| s.parse().ok()).unwrap_or(900);
     std::thread::spawn(move || {
         let mut last = PROGRESS.load(Ordering::Relaxed);
-        let mut stale = 0;
+        let mut cpu_at_progress = process_cpu_secs();
+        let mut stale_wall = 0u64;
         loop {
             std::thread::sleep(std::time::Duration::from_secs(1));
             let now = PROGRESS.load(Ordering::Relaxed);
             if now == last && now != 0 && !DONE.load(Ordering::Relaxed) {
-                stale += 1;
-                if stale >= limit {
+                stale_wall += 1;
+                if process_cpu_secs() - cpu_at_progress >= limit as f64 || stale_wall >= wall_limit {
                     dump_case();
                     unsafe { _exit(3) }
                 }
             } else {
-                stale = 0;
+                stale_wall = 0;
                 last = now;
+                cpu_at_progress = process_cpu_secs();
             }
         }
     });
